@@ -85,7 +85,7 @@ def checkCycle (inp obs : KV) : Option String × List (String × String) :=
   let total := sumCost buf
   let o1 := batchList (obs.get "b1")
   let (o1mid, o1left) := splitAtLen e1.mid.length o1
-  let c2 : Cfg := { c with allow := allowance 1000000 ms }
+  let c2 : Cfg := { c with allow := allowance 1000000000 ms }
   let e2 := expectCycle c2 e1.remaining slots
   let o2 := batchList (obs.get "b2")
   let (o2mid, o2left) := splitAtLen e2.mid.length o2
